@@ -55,11 +55,12 @@ Proof. exact lex_render_needs_sep. Qed.
 Print Assumptions C05_lex_render_needs_sep_refuted.
 
 (* stage 2, maximal munch: the full raw lexer (readfile + combineOperators) returns, for every token list that may
-   also contain  == != <= >= += -= *= /= %= |= ^= || && :: -> << >> ++ --  and every family of blank separators that keeps two
+   also contain  == != <= >= += -= *= /= %= |= ^= || && :: -> << >> ++ -- <<= >>= ...  and every family of blank separators that keeps two
    names and two operators apart, exactly the tokens (the two characters read back as ONE token) at the positions
    of the rewrite's location map. no_exp keeps `1e + 5` out (assembled whatever separates the parts); ctx_ok states the
    context rules of combineOperators: a shift is not followed by a lone `=` (it would be read as shift-assign whatever
-   separates them), `++`/`--` does not stand next to a number token (`1 ++ 2` stays `+ +`). *)
+   separates them), `++`/`--` does not stand next to a number token (`1 ++ 2` stays `+ +`), a shift-assign is followed by a
+   further token that is not a lone `=` (the code requires one), the ellipsis does not follow a number token. *)
 Theorem C05_lex_render_munch_partial : forall toks ws,
   length ws = S (length toks) ->
   Forall (fun w => forallb is_blank w = true) ws ->
@@ -77,13 +78,14 @@ Print Assumptions C05_lex_render_munch_partial.
 
 Example C05_lex_render_munch_partial_inhabited :
   let toks := [TName [97]; TOp2 60 61; TName [98]; TOp2 38 38; TOp 33; TName [99]; TOp2 45 62; TName [100]; TOp2 60 60;
-               TName [49]; TOp 59; TName [105]; TOp2 43 43; TOp 59] in
-  let ws := [[]; [32]; []; [10; 9]; [32]; []; []; []; []; []; []; [10]; []; [32]; [10]] in
+               TName [49]; TOp 59; TName [105]; TOp2 43 43; TOp 59; TName [120]; TOp3 62 62 61; TName [51]; TOp 44; TOp3 46 46 46] in
+  let ws := [[]; [32]; []; [10; 9]; [32]; []; []; []; []; []; []; [10]; []; [32]; [10]; []; []; []; [32]; []] in
   length ws = S (length toks) /\ forallb (forallb is_blank) ws = true /\ forallb stok2_ok toks = true /\
   sep2_ok ws toks = true /\ no_exp toks = true /\ ctx_ok false toks = true /\
   map (fun t => (tstr t, tline t, tcol t)) (lex (render2 ws toks)) =
     [([97], 1, 1); ([60; 61], 1, 3); ([98], 1, 5); ([38; 38], 2, 2); ([33], 2, 5); ([99], 2, 6); ([45; 62], 2, 7); ([100], 2, 9);
-     ([60; 60], 2, 10); ([49], 2, 12); ([59], 2, 13); ([105], 3, 1); ([43; 43], 3, 2); ([59], 3, 5)].
+     ([60; 60], 2, 10); ([49], 2, 12); ([59], 2, 13); ([105], 3, 1); ([43; 43], 3, 2); ([59], 3, 5);
+     ([120], 4, 1); ([62; 62; 61], 4, 2); ([51], 4, 5); ([44], 4, 6); ([46; 46; 46], 4, 8)].
 Proof. vm_compute. repeat split; reflexivity. Qed.
 
 Theorem C05_lex_munch_needs_sep_refuted :
